@@ -220,6 +220,7 @@ package verifh
 //@   canary[C01] result1 == 0
 
 //@ func ListTwoElements
+//@   tier thorough
 //@   requires b != nil
 //@   modifies buffer.len at b
 //@   modifies buffer.obj at b
